@@ -26,5 +26,5 @@ MODULES = {
     "C18": ["contracts.discovery"],
     "C19": _API + ["contracts.discovery", "contracts.at4_ext_timer", "contracts.at5_ctrl_status"] + _FL,  # registration tables: the same API call reaches the same message type on both wires
 }
-for _p in ("C01", "C02", "C04", "C06", "C07", "C08", "C09", "C11", "C12", "C13", "C14", "C15", "C16", "C17", "C18", "C19"):
+for _p in ("C01", "C02", "C04", "C06", "C07", "C08", "C09", "C10", "C11", "C12", "C13", "C14", "C15", "C16", "C17", "C18", "C19"):
     MODULES[_p] = MODULES[_p] + _LIB
